@@ -331,7 +331,8 @@ impl DialectHandler for PostgresDialect {
                     // We hence need to put it in double quotes to force it to be interpreted as literal text
                     format!("\"{literal}\"")
                 } else {
-                    literal.replace('\'', "''").replace('"', "\\\"")
+                    // (a quote is escaped for SQL when the format is emitted as a string literal)
+                    literal.replace('"', "\\\"")
                 }
             }
             Item::Space(spaces) => spaces.to_string(),
@@ -404,7 +405,8 @@ impl DialectHandler for RedshiftDialect {
                     // We hence need to put it in double quotes to force it to be interpreted as literal text
                     format!("\"{literal}\"")
                 } else {
-                    literal.replace('\'', "''").replace('"', "\\\"")
+                    // (a quote is escaped for SQL when the format is emitted as a string literal)
+                    literal.replace('"', "\\\"")
                 }
             }
             Item::Space(spaces) => spaces.to_string(),
@@ -572,7 +574,8 @@ impl DialectHandler for MySqlDialect {
             Item::Fixed(Fixed::LongWeekdayName) => "%W".to_string(),
             Item::Fixed(Fixed::UpperAmPm) => "%p".to_string(),
             Item::Fixed(Fixed::RFC3339) => "%Y-%m-%dT%H:%i:%S.%fZ".to_string(),
-            Item::Literal(literal) => literal.replace('\'', "''").replace('%', "%%"),
+            // (a quote is escaped for SQL when the format is emitted as a string literal)
+            Item::Literal(literal) => literal.replace('%', "%%"),
             Item::Space(spaces) => spaces.to_string(),
             _ => {
                 return Err(Error::new_simple(
@@ -625,7 +628,9 @@ impl DialectHandler for ClickHouseDialect {
                     // Clickhouse uses backticks around
                     format!("'{literal}'")
                 } else {
-                    literal.replace('\'', "\\'\\'")
+                    // Joda syntax: two quotes stand for one (they are escaped for SQL when the
+                    // format is emitted as a string literal)
+                    literal.replace('\'', "''")
                 }
             }
             Item::Space(spaces) => spaces.to_string(),
@@ -732,7 +737,8 @@ impl DialectHandler for DuckDbDialect {
             Item::Fixed(Fixed::LongWeekdayName) => "%A".to_string(),
             Item::Fixed(Fixed::UpperAmPm) => "%p".to_string(),
             Item::Fixed(Fixed::RFC3339) => "%Y-%m-%dT%H:%M:%S.%fZ".to_string(),
-            Item::Literal(literal) => literal.replace('\'', "''").replace('%', "%%"),
+            // (a quote is escaped for SQL when the format is emitted as a string literal)
+            Item::Literal(literal) => literal.replace('%', "%%"),
             Item::Space(spaces) => spaces.to_string(),
             _ => {
                 return Err(Error::new_simple(
